@@ -8,7 +8,8 @@
   are not powers of two, and are inverses of each other."
 
   Model: Bnum/Model/Shift.lean (mirrors /repo/src/buint/mod.rs, bint/mod.rs, {buint,bint}/
-  {overflowing,checked,wrapping}.rs, int/{strict,unchecked,ops}.rs).  `w` = digit bits, `n` = digit
+  {overflowing,checked,wrapping}.rs, int/{strict,unchecked,ops}.rs) and Bnum/Model/C05Extra.lean (the
+  operator impls `Shl<ExpType>`, `Shr<ExpType>`, `ShlAssign<u32>`, `ShrAssign<u32>`).  `w` = digit bits, `n` = digit
   count, BITS = `w * n`, `M w n = 2^BITS`; `U` unsigned value, `S` two's-complement value.
   All theorems hold for every `w ≥ 1`, `n ≥ 1` (in particular every `w ≥ 2`) and every amount `s : Nat`
   (so in particular every u32).  The model writes the digit index arithmetic `rhs >> BIT_SHIFT`,
@@ -23,6 +24,7 @@
 -/
 import Bnum.Lemmas.Shift
 import Bnum.Spec.Shift
+import Bnum.Model.C05Extra
 namespace Bnum.C05
 open Bnum Bnum.Shift
 
@@ -295,6 +297,99 @@ example : II.rotateRight 8 [0x81, 0x7f, 0x83] 28 = [0xf8, 0x37, 0x18] := by deci
 /-- the case that the pre-fix code got wrong: 24 bits, `rotate_left(8)` -/
 theorem rotl_w8n3_by8 : UI.rotateLeft 8 [1, 0, 0] 8 = [0, 1, 0] := by decide
 
+/-! ## `unchecked_shl` / `unchecked_shr` (observation point "unchecked_ shl and shr"; src/int/unchecked.rs)
+
+  `self.checked_shl(rhs).unwrap_unchecked()`: for `s < BITS` exactly the in-range value; for `s ≥ BITS`
+  the Rust is undefined behaviour, which the model keeps visible as `none` — exactly then. -/
+
+theorem unchecked_inrange (hs : s < w * a.length) :
+    UI.uncheckedShl w a s = some (UI.uncheckedShlInternal w a s) ∧
+    UI.uncheckedShr w a s = some (UI.uncheckedShrInternal w a s) ∧
+    II.uncheckedShl w a s = some (UI.uncheckedShlInternal w a s) ∧
+    II.uncheckedShr w a s = some (II.shrVal w a s) :=
+  ⟨UI.checkedShl_of_lt hs, UI.checkedShr_of_lt hs, II.checkedShl_of_lt hs, II.checkedShr_of_lt hs⟩
+example : 13 < 8 * [0x81, 0x7f, 0x83].length ∧
+    UI.uncheckedShl 8 [0x81, 0x7f, 0x83] 13 = some [0, 0x20, 0xf0] := by decide
+
+theorem unchecked_ub :
+    (UI.uncheckedShl w a s = none ↔ w * a.length ≤ s) ∧
+    (UI.uncheckedShr w a s = none ↔ w * a.length ≤ s) ∧
+    (II.uncheckedShl w a s = none ↔ w * a.length ≤ s) ∧
+    (II.uncheckedShr w a s = none ↔ w * a.length ≤ s) :=
+  ⟨u_checked_shl_none, u_checked_shr_none, i_checked_shl_none, i_checked_shr_none⟩
+example : UI.uncheckedShl 8 [0x81, 0x7f, 0x83] 24 = none ∧
+    II.uncheckedShr 8 [0x81, 0x7f, 0x83] 23 = some [0xff, 0xff, 0xff] := by decide
+
+/-- delegation structure of the Rust: strict = `expect` of checked, unchecked = `unwrap_unchecked` of
+    checked -/
+theorem strict_unchecked_eq_checked :
+    UI.strictShl w a s = Outcome.expect (UI.checkedShl w a s) ∧
+    UI.strictShr w a s = Outcome.expect (UI.checkedShr w a s) ∧
+    II.strictShl w a s = Outcome.expect (II.checkedShl w a s) ∧
+    II.strictShr w a s = Outcome.expect (II.checkedShr w a s) ∧
+    UI.uncheckedShl w a s = UI.checkedShl w a s ∧ UI.uncheckedShr w a s = UI.checkedShr w a s ∧
+    II.uncheckedShl w a s = II.checkedShl w a s ∧ II.uncheckedShr w a s = II.checkedShr w a s :=
+  ⟨rfl, rfl, rfl, rfl, rfl, rfl, rfl, rfl⟩
+example : II.strictShr 8 [0x81, 0x7f, 0x83] 7 = .ok [0xff, 0x06, 0xff] := by decide
+
+/-! ## the operators `<<`, `>>`, `<<=`, `>>=` with a `u32` amount (observation point "results of <<, >>";
+    src/int/ops.rs `impl Shl<ExpType>` / `impl Shr<ExpType>` / `assign_op_impl!`; Model/C05Extra.lean) -/
+
+/-- the operator impls are the inherent `shl` / `shr` of `trait_fillers!` -/
+theorem operators_eq (dbg : Bool) :
+    UI.shlExp dbg w a s = UI.shl dbg w a s ∧ UI.shrExp dbg w a s = UI.shr dbg w a s ∧
+    II.shlExp dbg w a s = II.shl dbg w a s ∧ II.shrExp dbg w a s = II.shr dbg w a s ∧
+    UI.shlAssignExp dbg w a s = UI.shl dbg w a s ∧ UI.shrAssignExp dbg w a s = UI.shr dbg w a s ∧
+    II.shlAssignExp dbg w a s = II.shl dbg w a s ∧ II.shrAssignExp dbg w a s = II.shr dbg w a s :=
+  ⟨rfl, rfl, rfl, rfl, rfl, rfl, rfl, rfl⟩
+example : II.shrExp true 8 [0x81, 0x7f, 0x83] 24 = .panic ∧
+    II.shrExp false 8 [0x81, 0x7f, 0x83] 24 = .ok [0x83, 0xff, 0xff] ∧
+    II.shrAssignExp true 8 [0x81, 0x7f, 0x83] 7 = .ok [0xff, 0x06, 0xff] := by decide
+
+/-- for `s < BITS`, in both build modes, the operators return exactly the in-range shift values -/
+theorem operators_inrange (dbg : Bool) (hs : s < w * a.length) :
+    UI.shlExp dbg w a s = .ok (UI.uncheckedShlInternal w a s) ∧
+    UI.shrExp dbg w a s = .ok (UI.uncheckedShrInternal w a s) ∧
+    II.shlExp dbg w a s = .ok (UI.uncheckedShlInternal w a s) ∧
+    II.shrExp dbg w a s = .ok (II.shrVal w a s) ∧
+    UI.shlAssignExp dbg w a s = .ok (UI.uncheckedShlInternal w a s) ∧
+    UI.shrAssignExp dbg w a s = .ok (UI.uncheckedShrInternal w a s) ∧
+    II.shlAssignExp dbg w a s = .ok (UI.uncheckedShlInternal w a s) ∧
+    II.shrAssignExp dbg w a s = .ok (II.shrVal w a s) :=
+  ⟨UI.shl_of_lt dbg hs, UI.shr_of_lt dbg hs, II.shl_of_lt dbg hs, II.shr_of_lt dbg hs,
+   UI.shl_of_lt dbg hs, UI.shr_of_lt dbg hs, II.shl_of_lt dbg hs, II.shr_of_lt dbg hs⟩
+example : 13 < 8 * [0x81, 0x7f, 0x83].length := by decide
+
+/-- `<<` / `>>` (hence also the operator forms, `operators_eq`) panic exactly under
+    `debug_assertions` with `s ≥ BITS` -/
+theorem shl_shr_panic (dbg : Bool) :
+    (UI.shl dbg w a s = .panic ↔ dbg = true ∧ w * a.length ≤ s) ∧
+    (UI.shr dbg w a s = .panic ↔ dbg = true ∧ w * a.length ≤ s) ∧
+    (II.shl dbg w a s = .panic ↔ dbg = true ∧ w * a.length ≤ s) ∧
+    (II.shr dbg w a s = .panic ↔ dbg = true ∧ w * a.length ≤ s) := by
+  obtain ⟨h1, h2, h3, h4⟩ := strict_panic (w := w) (a := a) (s := s)
+  cases dbg
+  · refine ⟨⟨?_, ?_⟩, ⟨?_, ?_⟩, ⟨?_, ?_⟩, ⟨?_, ?_⟩⟩ <;> intro h
+    all_goals first | (cases h; done) | (exact absurd h.1 (by decide))
+  · simp only [true_and]
+    exact ⟨h1, h2, h3, h4⟩
+example : UI.shl true 8 [0x81, 0x7f, 0x83] 24 = .panic ∧
+    UI.shl false 8 [0x81, 0x7f, 0x83] 24 ≠ .panic ∧ UI.shl true 8 [0x81, 0x7f, 0x83] 23 ≠ .panic := by
+  decide
+
+/-- an overflowing shift is the wrapping shift paired with the flag `s ≥ BITS` -/
+theorem overflowing_eq_wrapping :
+    UI.overflowingShl w a s = (UI.wrappingShl w a s, decide (w * a.length ≤ s)) ∧
+    UI.overflowingShr w a s = (UI.wrappingShr w a s, decide (w * a.length ≤ s)) ∧
+    II.overflowingShl w a s = (II.wrappingShl w a s, decide (w * a.length ≤ s)) ∧
+    II.overflowingShr w a s = (II.wrappingShr w a s, decide (w * a.length ≤ s)) := by
+  refine ⟨?_, ?_, ?_, ?_⟩
+  · unfold UI.wrappingShl; rw [u_overflowing_shl]
+  · unfold UI.wrappingShr; rw [u_overflowing_shr]
+  · unfold II.wrappingShl; rw [i_overflowing_shl]
+  · unfold II.wrappingShr; rw [i_overflowing_shr]
+example : II.overflowingShr 8 [0x81, 0x7f, 0x83] 39 = ([0xff, 0x06, 0xff], true) := by decide
+
 /-! ## the executable Spec (Bnum/Spec/Shift.lean, used by the driver) is what the theorems say -/
 
 theorem spec_shl_unsigned (hw : 1 ≤ w) (ha : WF w n a) (hs : s < w * n) :
@@ -326,5 +421,134 @@ theorem spec_rotl (hw : 1 ≤ w) (hn : 1 ≤ n) (ha : WF w n a) (k : Nat) :
 theorem spec_rotr (hw : 1 ≤ w) (hn : 1 ≤ n) (ha : WF w n a) (k : Nat) :
     U w (UI.rotateRight w a k) = Spec.Shift.rotr (w * n) (U w a) k := (rotr_spec hw hn ha k).2
 example : WF 8 3 [0x81, 0x7f, 0x83] ∧ 13 < 8 * 3 := by decide
+
+/-! ### the remaining Spec functions the driver answers with (`isPow2`, `effAmount`, `unboundedShl`,
+    `unboundedShr`) and the composed answers of `wrapping_*`, `overflowing_*` (with
+    `overflowing_eq_wrapping`), `checked_*`, `strict_*`/`unchecked_*` (with `strict_unchecked_eq_checked`) -/
+
+theorem spec_isPow2 (b : Nat) : Spec.Shift.isPow2 b = true ↔ ∃ k, b = 2 ^ k := by
+  unfold Spec.Shift.isPow2
+  rw [beq_iff_eq]
+  constructor
+  · intro h; exact ⟨_, h.symm⟩
+  · rintro ⟨k, rfl⟩; rw [Nat.log2_two_pow]
+example : Spec.Shift.isPow2 32 = true ∧ Spec.Shift.isPow2 24 = false ∧ Spec.Shift.isPow2 0 = false := by
+  decide
+
+/-- whenever the Spec fixes an amount it is the amount the code uses, and it is in range -/
+theorem spec_effAmount_some {bits e : Nat} (hb : 0 < bits)
+    (h : Spec.Shift.effAmount bits s = some e) : effAmount bits s = e ∧ e < bits := by
+  unfold Spec.Shift.effAmount at h
+  by_cases h1 : s < bits
+  · rw [if_pos h1] at h; cases h; exact ⟨effAmount_of_lt h1, h1⟩
+  · rw [if_neg h1] at h
+    by_cases h2 : Spec.Shift.isPow2 bits = true
+    · rw [if_pos h2] at h; cases h
+      obtain ⟨k, hk⟩ := (spec_isPow2 bits).1 h2
+      exact ⟨effAmount_pow2 s hk, Nat.mod_lt _ hb⟩
+    · rw [if_neg h2] at h; cases h
+example : (0 : Nat) < 32 ∧ Spec.Shift.effAmount 32 37 = some 5 := by decide
+
+/-- the Spec fixes the amount for every `s < BITS` … -/
+theorem spec_effAmount_lt {bits : Nat} (h : s < bits) : Spec.Shift.effAmount bits s = some s := by
+  unfold Spec.Shift.effAmount; rw [if_pos h]
+/-- … and, "when BITS is a power of two", as `s mod BITS` for every `s` … -/
+theorem spec_effAmount_pow2 {bits k : Nat} (h : bits = 2 ^ k) :
+    Spec.Shift.effAmount bits s = some (s % bits) := by
+  unfold Spec.Shift.effAmount
+  by_cases h1 : s < bits
+  · rw [if_pos h1, Nat.mod_eq_of_lt h1]
+  · rw [if_neg h1, if_pos ((spec_isPow2 bits).2 ⟨k, h⟩)]
+/-- … and leaves it open (driver answer `*`) exactly for `s ≥ BITS` at a width that is not a power
+    of two -/
+theorem spec_effAmount_none {bits : Nat} :
+    Spec.Shift.effAmount bits s = none ↔ bits ≤ s ∧ ¬ ∃ k, bits = 2 ^ k := by
+  unfold Spec.Shift.effAmount
+  rw [← spec_isPow2]
+  by_cases h1 : s < bits
+  · rw [if_pos h1]; constructor
+    · intro h; cases h
+    · intro h; omega
+  · rw [if_neg h1]
+    by_cases h2 : Spec.Shift.isPow2 bits = true
+    · rw [if_pos h2]; constructor
+      · intro h; cases h
+      · intro h; exact absurd h2 h.2
+    · rw [if_neg h2]; exact ⟨fun _ => ⟨by omega, h2⟩, fun _ => rfl⟩
+example : Spec.Shift.effAmount 24 23 = some 23 ∧ Spec.Shift.effAmount 64 4294967295 = some 63 ∧
+    Spec.Shift.effAmount 24 25 = none := by decide
+
+/-- `wrapping_shl` / `wrapping_shr` (and by `overflowing_eq_wrapping` the value of `overflowing_*`,
+    by `shl_shr_rel` release `<<` / `>>`): whenever the Spec fixes the amount `e`, the result is the
+    Spec shift by `e` — of the unsigned value for `BUint`, of the signed value for `BInt` -/
+theorem spec_wrapping (hw : 1 ≤ w) (hn : 1 ≤ n) (ha : WF w n a) {e : Nat}
+    (h : Spec.Shift.effAmount (w * n) s = some e) :
+    U w (UI.wrappingShl w a s) = Spec.Shift.shlVal (w * n) (U w a : Int) e ∧
+    U w (UI.wrappingShr w a s) = Spec.Shift.shrVal (w * n) (U w a : Int) e ∧
+    U w (II.wrappingShl w a s) = Spec.Shift.shlVal (w * n) (S w a) e ∧
+    U w (II.wrappingShr w a s) = Spec.Shift.shrVal (w * n) (S w a) e := by
+  obtain ⟨he, hlt⟩ := spec_effAmount_some (bits_pos hw hn) h
+  refine ⟨?_, ?_, ?_, ?_⟩
+  · unfold UI.wrappingShl; rw [u_overflowing_shl, ha.1, he]; exact spec_shl_unsigned hw ha hlt
+  · unfold UI.wrappingShr; rw [u_overflowing_shr, ha.1, he]; exact spec_shr_unsigned hw ha hlt
+  · unfold II.wrappingShl; rw [i_overflowing_shl, ha.1, he]; exact spec_shl_signed hw ha hlt
+  · unfold II.wrappingShr; rw [i_overflowing_shr, ha.1, he]; exact spec_shr_signed hw hn ha hlt
+example : WF 8 4 [0x81, 0x7f, 0x83, 0x01] ∧ Spec.Shift.effAmount (8 * 4) 37 = some 5 := by decide
+
+/-- `checked_shl` / `checked_shr`: `None` for `s ≥ BITS`, else `Some` of the Spec shift by `s` -/
+theorem spec_checked (hw : 1 ≤ w) (hn : 1 ≤ n) (ha : WF w n a) :
+    (UI.checkedShl w a s).map (U w)
+      = (if w * n ≤ s then none else some (Spec.Shift.shlVal (w * n) (U w a : Int) s)) ∧
+    (UI.checkedShr w a s).map (U w)
+      = (if w * n ≤ s then none else some (Spec.Shift.shrVal (w * n) (U w a : Int) s)) ∧
+    (II.checkedShl w a s).map (U w)
+      = (if w * n ≤ s then none else some (Spec.Shift.shlVal (w * n) (S w a) s)) ∧
+    (II.checkedShr w a s).map (U w)
+      = (if w * n ≤ s then none else some (Spec.Shift.shrVal (w * n) (S w a) s)) := by
+  by_cases h : w * n ≤ s
+  · have h' : w * a.length ≤ s := by rw [ha.1]; exact h
+    simp only [if_pos h]
+    rw [UI.checkedShl_of_ge h', UI.checkedShr_of_ge h', II.checkedShl_of_ge h', II.checkedShr_of_ge h']
+    exact ⟨rfl, rfl, rfl, rfl⟩
+  · have h' : s < w * a.length := by rw [ha.1]; omega
+    have hs : s < w * n := by omega
+    simp only [if_neg h]
+    rw [UI.checkedShl_of_lt h', UI.checkedShr_of_lt h', II.checkedShl_of_lt h', II.checkedShr_of_lt h']
+    simp only [Option.map_some]
+    exact ⟨congrArg some (spec_shl_unsigned hw ha hs), congrArg some (spec_shr_unsigned hw ha hs),
+      congrArg some (spec_shl_signed hw ha hs), congrArg some (spec_shr_signed hw hn ha hs)⟩
+example : WF 8 3 [0x81, 0x7f, 0x83] ∧ ¬ 8 * 3 ≤ 23 ∧ 8 * 3 ≤ 24 := by decide
+
+/-- `unbounded_shl` / `unbounded_shr` for every amount: the Spec shift below BITS, `0` (or the all-ones
+    pattern of `-1` for a negative `BInt` shifted right) from BITS on -/
+theorem spec_unbounded (hw : 1 ≤ w) (hn : 1 ≤ n) (ha : WF w n a) :
+    U w (UI.unboundedShl w a s) = Spec.Shift.unboundedShl (w * n) (U w a : Int) s ∧
+    U w (UI.unboundedShr w a s) = Spec.Shift.unboundedShr (w * n) (U w a : Int) s ∧
+    U w (II.unboundedShl w a s) = Spec.Shift.unboundedShl (w * n) (S w a) s ∧
+    U w (II.unboundedShr w a s) = Spec.Shift.unboundedShr (w * n) (S w a) s := by
+  unfold Spec.Shift.unboundedShl Spec.Shift.unboundedShr
+  by_cases h : s < w * n
+  · have h' : s < w * a.length := by rw [ha.1]; exact h
+    simp only [if_pos h]
+    rw [UI.unboundedShl_of_lt h', UI.unboundedShr_of_lt h', II.unboundedShl_of_lt h',
+      II.unboundedShr_of_lt h']
+    exact ⟨spec_shl_unsigned hw ha h, spec_shr_unsigned hw ha h, spec_shl_signed hw ha h,
+      spec_shr_signed hw hn ha h⟩
+  · have hnn : ¬ ((U w a : Int) < 0) := by omega
+    rw [(u_unbounded_shl hw ha).2, (u_unbounded_shr hw ha).2, (i_unbounded_shl hw ha).2,
+      II.unboundedShr_eq, ha.1]
+    simp only [if_neg h, if_neg hnn]
+    refine ⟨trivial, trivial, trivial, ?_⟩
+    have hneg := isNegative_iff' hw hn ha
+    cases hN : isNegative w a with
+    | true =>
+      have : S w a < 0 := hneg.1 hN
+      simp only [if_true, this]; exact U_allOnes w n
+    | false =>
+      have : ¬ S w a < 0 := fun h => by rw [hneg.2 h] at hN; cases hN
+      simp only [Bool.false_eq_true, if_false, this]; exact U_zero w n
+example : WF 8 3 [0x81, 0x7f, 0x83] ∧ S 8 [0x81, 0x7f, 0x83] < 0 ∧
+    II.unboundedShr 8 [0x81, 0x7f, 0x83] 24 = [0xff, 0xff, 0xff] ∧
+    II.unboundedShr 8 [0x81, 0x7f, 0x03] 4294967295 = [0, 0, 0] := by decide
 
 end Bnum.C05
